@@ -32,7 +32,7 @@ fn one(n: usize, pre_evaluated_mask: u32, parallel: bool, steps: usize) {
     state.insert(Populations::<Counting>::new());
     if parallel { state.insert_evaluator(Parallel::<Counting>::new()); } else { state.insert_evaluator(Sequential::<Counting>::new()); }
     let pop: Vec<Individual<Counting>> = (0..n).map(|i| {
-        if pre_evaluated_mask >> i & 1 == 1 { Individual::new(i as u8, SingleObjective::try_from(777.0).unwrap()) } else { Individual::new_unevaluated(i as u8) }
+        if pre_evaluated_mask >> (i % 32) & 1 == 1 { Individual::new(i as u8, SingleObjective::try_from(777.0).unwrap()) } else { Individual::new_unevaluated(i as u8) }
     }).collect();
     state.populations_mut().push(pop);
     let ev: Box<dyn Component<Counting>> = PopulationEvaluator::new();
@@ -62,6 +62,20 @@ pub fn c06_native_population_evaluator() {
             for parallel in [false, true] {
                 for steps in 1..=2 { one(n, mask, parallel, steps); cases += 1; }
             }
+        }
+    }
+    // larger populations, both evaluators; the parallel one under worker pools of 1..8 threads (how a population is split over
+    // the workers must not matter) and under the global pool
+    for n in (5..=70usize).chain([97, 128, 200]) {
+        for mask in [0u32, 0xAAAA_AAAA, u32::MAX] {
+            one(n, mask, false, 1);
+            one(n, mask, true, 2);
+            cases += 2;
+        }
+        for threads in [1usize, 2, 3, 4, 5, 8] {
+            let pool = rayon::ThreadPoolBuilder::new().num_threads(threads).build().expect("thread pool");
+            pool.install(|| one(n, 0x5555_5555, true, 1));
+            cases += 1;
         }
     }
     // "if no evaluator with the requested identifier is registered the run fails with an error before anything executes"
